@@ -2,7 +2,7 @@
 """seedsweep.py [names...]: run the property check(s) against every stored seeded change (scratch worktree,
 VERIF_REPO) and write /verif/seeded/detection.json. Development-time tool."""
 import json, os, subprocess, sys, glob
-extra = {"C07-m1": ["C07", "C08"]}   # the truncation code sits between two properties
+extra = {"C07-m1": ["C07", "C08"], "C02-m4": ["C02", "C06"]}   # code that sits between two properties
 args = [a for a in sys.argv[1:] if not a.startswith('--')]
 names = args or sorted(os.path.basename(d) for d in glob.glob('/verif/seeded/C*-m*'))
 out_path = '/verif/seeded/detection.json'
